@@ -58,6 +58,12 @@ struct Case {
     /// are in, its target in another one (relative locations are relative to the directory of the
     /// path that was opened)
     via_symlink: bool,
+    /// open with a locator that knows packs by their uuid only (an application-side pack store:
+    /// every file of the directory is looked at, the recorded location is ignored)
+    uuid_locator: bool,
+    /// how the entry file is named: 0 = absolute path; 1 = its bare file name, the process
+    /// standing in the container's directory; 2 = "./name" from there
+    entry_style: u8,
 }
 
 /// An application-provided locator: looks the recorded location up in a list of directories.
@@ -78,12 +84,47 @@ impl jubako::reader::PackLocatorTrait for SearchPathLocator {
     }
 }
 
+/// An application-side pack store: packs are known by uuid (bytes 10..26 of every pack file of
+/// the directory), the location recorded in the manifest is not looked at.
+struct UuidStoreLocator {
+    dirs: Vec<std::path::PathBuf>,
+}
+
+impl jubako::reader::PackLocatorTrait for UuidStoreLocator {
+    fn locate(&self, uuid: uuid::Uuid, _helper: &str) -> jubako::Result<Option<jubako::Reader>> {
+        let mut names: Vec<std::path::PathBuf> = vec![];
+        for d in &self.dirs {
+            let mut here: Vec<std::path::PathBuf> = match std::fs::read_dir(d) {
+                Ok(rd) => rd.filter_map(|e| e.ok()).map(|e| e.path()).collect(),
+                Err(_) => continue,
+            };
+            here.sort();
+            names.extend(here);
+        }
+        for p in names {
+            let Ok(md) = std::fs::symlink_metadata(&p) else { continue };
+            if !md.is_file() {
+                continue;
+            }
+            use std::io::Read;
+            let mut head = [0u8; 26];
+            let Ok(mut f) = std::fs::File::open(&p) else { continue };
+
+            if f.read_exact(&mut head).is_err() || &head[0..3] != b"jbk" || head[10..26] != uuid.as_bytes()[..] {
+                continue;
+            }
+            return Ok(Some(jubako::Reader::from(jubako::FileSource::open(p)?)));
+        }
+        Ok(None)
+    }
+}
+
 impl Case {
     fn encode(&self) -> String {
         format!(
             "subset={:b} kind={:?} instant={:?} damaged={} order={}{}",
             self.subset, self.kind, self.instant, self.damaged, self.order_seed,
-            if self.custom_locator { " locator=application-provided" } else if self.via_symlink { " entry=via-symlink" } else { "" }
+            if self.uuid_locator { " locator=application-provided-by-uuid" } else if self.custom_locator { " locator=application-provided" } else if self.via_symlink { " entry=via-symlink" } else if self.entry_style == 1 { " entry=bare-name-from-its-directory" } else if self.entry_style == 2 { " entry=./name-from-its-directory" } else { "" }
         )
     }
 }
@@ -209,7 +250,7 @@ fn containers(seed: u64, tier: Tier) -> Vec<(String, Logical)> {
                 // edition" whose packs are all recorded with an empty location (concat)
                 for (tag, packaging, opts) in [
                     ("url-located", Packaging::Loose, gen::LogicalOpts { url_located: 1 << (p - 1), ..Default::default() }),
-                    ("light-edition", Packaging::Concat, gen::LogicalOpts { concat_leave_out: 1 << (p - 1), empty_locations: true, ..Default::default() }),
+                    ("light-edition", Packaging::Concat, gen::LogicalOpts { concat_leave_out: 1 << (p - 1), empty_locations: true, keep_left_out: true, ..Default::default() }),
                 ] {
                     out.push((
                         format!("c11-{tag}-p{p}-{}{suffix}", comp.name()),
@@ -280,6 +321,8 @@ fn cases_for(model: &gen::Model, seed: u64) -> Vec<Case> {
         order_seed: 1,
         custom_locator: false,
         via_symlink: false,
+        uuid_locator: false,
+        entry_style: 0,
     });
     out.push(Case {
         subset: 0,
@@ -289,6 +332,8 @@ fn cases_for(model: &gen::Model, seed: u64) -> Vec<Case> {
         order_seed: 2,
         custom_locator: true,
         via_symlink: false,
+        uuid_locator: false,
+        entry_style: 0,
     });
     for subset in 1u32..(1 << n_packs) {
         if subset & absent_mask != 0 {
@@ -304,6 +349,8 @@ fn cases_for(model: &gen::Model, seed: u64) -> Vec<Case> {
                     order_seed: rng.next_u64(),
                     custom_locator: false,
                     via_symlink: subset % 2 == 1,
+                    uuid_locator: false,
+                    entry_style: 0,
                 });
                 // a second access order, through an application-provided locator
                 out.push(Case {
@@ -314,6 +361,8 @@ fn cases_for(model: &gen::Model, seed: u64) -> Vec<Case> {
                     order_seed: rng.next_u64(),
                     custom_locator: true,
                     via_symlink: false,
+                    uuid_locator: false,
+                    entry_style: 0,
                 });
             }
             // "the container check covers the packs that are present": damage each present pack
@@ -327,6 +376,8 @@ fn cases_for(model: &gen::Model, seed: u64) -> Vec<Case> {
                         order_seed: rng.next_u64(),
                         custom_locator: d % 2 == 0,
                         via_symlink: d % 2 == 1,
+                        uuid_locator: false,
+                        entry_style: 0,
                     });
                 }
             }
@@ -345,6 +396,29 @@ fn cases_for(model: &gen::Model, seed: u64) -> Vec<Case> {
             order_seed: rng.next_u64(),
             custom_locator: d % 2 == 1,
             via_symlink: d % 2 == 0,
+            uuid_locator: false,
+            entry_style: 0,
+        });
+    }
+    // the same removals with the entry named relative to the process's directory, and through a
+    // locator that knows packs by uuid only
+    let base: Vec<Case> = out
+        .iter()
+        .filter(|c| c.kind == Kind::Removed && c.damaged == 0 && !c.custom_locator)
+        .cloned()
+        .collect();
+    for (k, c) in base.iter().enumerate() {
+        out.push(Case {
+            via_symlink: false,
+            entry_style: 1 + (k % 2) as u8,
+            order_seed: rng.next_u64(),
+            ..c.clone()
+        });
+        out.push(Case {
+            via_symlink: false,
+            uuid_locator: true,
+            order_seed: rng.next_u64(),
+            ..c.clone()
         });
     }
     out
@@ -365,6 +439,8 @@ struct Image {
     /// packs (bit p-1) that can be found nowhere whatever the case does: recorded under a URL the
     /// default locator cannot follow (loose), or left out of the concatenated file
     always_missing: u32,
+    /// packs (bit p-1) left out of the one-file edition whose file lies beside it
+    left_out_beside: u32,
 }
 
 fn apply_fault(dir: &Path, img: &Image, case: &Case) {
@@ -629,7 +705,28 @@ fn run_case(dir: &Path, img: &Image, case: &Case) -> Vec<String> {
         std::fs::rename(&entry, &target).unwrap();
         std::os::unix::fs::symlink(std::path::Path::new("elsewhere").join(&img.files[0].0), &entry).unwrap();
     }
-    let opened = if case.custom_locator {
+    // (the worker runs one case at a time; every other path it uses is absolute)
+    struct BackTo(std::path::PathBuf);
+    impl Drop for BackTo {
+        fn drop(&mut self) {
+            let _ = std::env::set_current_dir(&self.0);
+        }
+    }
+    let _back = if case.entry_style != 0 {
+        let b = BackTo(std::env::current_dir().unwrap_or_else(|_| "/".into()));
+        std::env::set_current_dir(dir).unwrap_or_else(|e| simcore::harness_error(&format!("C11: chdir: {e}")));
+        Some(b)
+    } else {
+        None
+    };
+    let entry = match case.entry_style {
+        1 => std::path::PathBuf::from(&img.files[0].0),
+        2 => std::path::Path::new(".").join(&img.files[0].0),
+        _ => entry,
+    };
+    let opened = if case.uuid_locator {
+        jubako::reader::Container::new_with_locator(&entry, Arc::new(UuidStoreLocator { dirs: vec![dir.to_path_buf(), dir.join("sub"), dir.join("../sib")] }))
+    } else if case.custom_locator {
         jubako::reader::Container::new_with_locator(
             &entry,
             Arc::new(SearchPathLocator {
@@ -658,7 +755,11 @@ fn run_case(dir: &Path, img: &Image, case: &Case) -> Vec<String> {
         }
         apply_fault(dir, img, case);
     }
-    let missing = |p: u16| img.always_missing & (1 << (p - 1)) != 0 || (!img.embedded && case.subset & (1 << (p - 1)) != 0);
+    // (a pack left out of a one-file edition lies beside it under a name the manifest does not
+    // record: only the locator that goes by uuid can find it)
+    // (likewise a loose pack recorded under a URL: its file is in the directory under a plain name)
+    let left_out_found = |p: u16| case.uuid_locator && (!img.embedded || img.left_out_beside & (1 << (p - 1)) != 0);
+    let missing = |p: u16| (img.always_missing & (1 << (p - 1)) != 0 && !left_out_found(p)) || (!img.embedded && case.subset & (1 << (p - 1)) != 0);
     observe_contents(&container, img, case, &order, &missing, case.instant == Instant::AfterFirstAccess, "", &mut bad);
     if case.instant == Instant::HealedAfterFirstAnswers {
         // put every pack back where the manifest says and ask again, on the same container
@@ -680,7 +781,7 @@ fn run_case(dir: &Path, img: &Image, case: &Case) -> Vec<String> {
                 std::fs::write(&path, bytes).unwrap();
             }
         }
-        let nobody = |p: u16| img.always_missing & (1 << (p - 1)) != 0;
+        let nobody = |p: u16| img.always_missing & (1 << (p - 1)) != 0 && !left_out_found(p);
         observe_contents(&container, img, case, &order, &nobody, false, "after the packs were put back: ", &mut bad);
     }
     // entries and indexes are untouched by any of this
@@ -791,6 +892,7 @@ pub fn worker_main(args: &Args, w: usize, n: usize) -> ! {
             embedded,
             empty_locations: logical.opts.empty_locations,
             always_missing: if embedded { logical.opts.concat_leave_out } else { logical.opts.url_located },
+            left_out_beside: if embedded && logical.opts.keep_left_out { logical.opts.concat_leave_out } else { 0 },
         });
         let cases = cases_for(&img.model, simcore::prng::hash_label(args.seed, &name, 0));
         let total = cases.len() as u64;
